@@ -121,6 +121,17 @@ def generate(ctx):
     for n, off in ([(1, 0), (5, 0), (2, 0), (6, 3)] if quick else [(1, 0), (3, 0), (5, 0), (9, 0), (2, 0), (2, 5), (6, 3), (8, 0), (8, 8)]):
         x = rng.integers(-9, 10, size=(n, 3)).astype(float).tolist()
         yield 'fourier_deriv', {'n': n, 'off': off, 'x': x}
+    # resolution-threshold and call-sequence triggers (independent second-wave mutations):
+    #  * nodal wrappers on grids with very many latitude / longitude nodes but a tiny truncation
+    #    (cos(lat) gets small near the poles only on fine grids)
+    #  * the library's jitted nodal wrappers take `grid` as a static argument: reference / fast / padded
+    #    grids used one after another in one process must not be confused by the jit cache
+    for J_, I_, spc in ([(260, 10, 'gauss'), (64, 300, 'equiangular')] if quick else
+                        [(260, 10, 'gauss'), (64, 300, 'equiangular'), (512, 12, 'gauss'), (301, 16, 'equiangular')]):
+        yield 'wrappers_fine', {'M': 3, 'L': 4, 'I': I_, 'J': J_, 'spacing': spc, 'seed': int(rng.integers(0, 2 ** 31))}
+    for cfg in [dict(M=4, L=5, I=13, J=7, spacing='gauss', offset=0.0, radius=1.0),
+                dict(M=3, L=4, I=10, J=6, spacing='gauss', offset=0.1, radius=7.0 / 3.0)]:
+        yield 'jit_static', {'cfg': cfg, 'seed': int(rng.integers(0, 2 ** 31))}
     for sp in grid_specs(ctx.tier):
         ctx.count('impl:%s' % sp['impl']); ctx.count('M=%d,L=%d' % (sp['M'], sp['L']))
         yield 'tables', {'grid': sp}
@@ -627,6 +638,36 @@ def r_spectral_id(ctx, a):
                      np.stack(sh.get_cos_lat_vector(x, y, g1)), scale=s)
 
 
-RUNNERS = {'shift': r_shift, 'shift2d': r_shift2d, 'clip_reject': r_clip_reject, 'fourier_deriv': r_fourier_deriv,
+def r_wrappers_fine(ctx, a):
+    """vor/div -> wind -> vor/div on grids with many nodes and a tiny truncation (oracle on the implementation)."""
+    jnp, sh, fourier, jnu = J()
+    rng = np.random.Generator(np.random.PCG64(a['seed']))
+    for impl in (sh.RealSphericalHarmonics, sh.FastSphericalHarmonics):
+        g = sh.Grid(longitude_wavenumbers=a['M'], total_wavenumbers=a['L'], longitude_nodes=a['I'], latitude_nodes=a['J'],
+                    latitude_spacing=a['spacing'], spherical_harmonics_impl=impl)
+        mm, ll = g.modal_mesh
+        ok = np.asarray(g.mask) & (ll >= 1) & (ll <= a['L'] - 3 + 1)     # degree <= L-3 ... here L=4: l = 1
+        ok = np.asarray(g.mask) & (ll >= 1) & (ll <= max(a['L'] - 3, 1))
+        vor = rng.integers(-8, 9, size=(2,) + tuple(g.modal_shape)).astype(np.float64) / 8 * ok
+        div = rng.integers(-8, 9, size=(2,) + tuple(g.modal_shape)).astype(np.float64) / 8 * ok
+        cu, cv = sh.get_cos_lat_vector(jnp.asarray(vor), jnp.asarray(div), g, clip=True)
+        want_u = np.asarray(g.to_nodal(cu)) / np.asarray(g.cos_lat); want_v = np.asarray(g.to_nodal(cv)) / np.asarray(g.cos_lat)
+        u, v = sh.vor_div_to_uv_nodal(g, jnp.asarray(vor), jnp.asarray(div))
+        sc = max(float(np.abs(want_u).max()), float(np.abs(want_v).max()), 1e-300)
+        ctx.oracle_close('vor_div_to_uv_nodal = to_nodal(get_cos_lat_vector)/cos_lat on a fine grid (%s)' % a['spacing'],
+                         np.stack([np.asarray(u), np.asarray(v)]), np.stack([want_u, want_v]), scale=sc, tol_rel=1e-10)
+        v2, d2 = sh.uv_nodal_to_vor_div_modal(g, u, v)
+        ctx.oracle_close('vor/div -> wind -> vor/div is the identity (degree <= L-3) on a fine grid (%s)' % a['spacing'],
+                         np.stack([np.asarray(v2), np.asarray(d2)]), np.stack([vor, div]),
+                         scale=max(float(np.abs(vor).max()), float(np.abs(div).max()), 1e-300), tol_rel=1e-9)
+        ctx.count('wrappers_fine:min cos_lat %.1e' % float(np.min(np.asarray(g.cos_lat))))
+
+
+def r_jit_static(ctx, a):
+    from props import C09
+    return C09.r_jit_static(ctx, a)
+
+
+RUNNERS = {'wrappers_fine': r_wrappers_fine, 'jit_static': r_jit_static, 'shift': r_shift, 'shift2d': r_shift2d, 'clip_reject': r_clip_reject, 'fourier_deriv': r_fourier_deriv,
            'tables': r_tables, 'onehot': r_onehot, 'random_ops': r_random_ops, 'analytic': r_analytic,
            'sec2_hyp': r_sec2_hyp, 'vecid': r_vecid, 'roundtrip_basis': r_roundtrip_basis, 'spectral_id': r_spectral_id}
